@@ -2066,3 +2066,108 @@ func tgPoisoningHelper(p *engine.Prog, s *engine.Site, poisF *types.Var, depth i
 	}
 	return n, n > 0
 }
+
+// tgLoadedRoot: expression e (in fn) denotes the node loaded from the node DB
+// through the version's root reference: a local all of whose assignments are
+// nil or loader(k) with k a local assigned only from rootRef(...). A missing
+// initialiser (`var x *T`) counts as nil.
+func tgLoadedRoot(fn *engine.Fn, e ast.Expr, loader, rootRef string) (bool, string) {
+	info := fn.Info()
+	o, isVar := engine.ObjOf(info, e).(*types.Var)
+	if _, isId := ast.Unparen(e).(*ast.Ident); !isId || !isVar || o.IsField() {
+		// a direct call is fine too
+		if call, ok := ast.Unparen(e).(*ast.CallExpr); ok {
+			return tgLoaderCall(fn, call, loader, rootRef)
+		}
+		return false, "not a local variable or loader call"
+	}
+	n := 0
+	ok, why := true, ""
+	engine.InspectBody(fn, func(nd ast.Node) {
+		as, isAs := nd.(*ast.AssignStmt)
+		if !isAs {
+			return
+		}
+		for i, l := range as.Lhs {
+			if engine.ObjOf(info, l) != types.Object(o) {
+				continue
+			}
+			n++
+			var rhs ast.Expr
+			if len(as.Rhs) == len(as.Lhs) {
+				rhs = as.Rhs[i]
+			} else if len(as.Rhs) == 1 && i == 0 {
+				rhs = as.Rhs[0]
+			}
+			if rhs == nil {
+				ok, why = false, "assigned from a tuple position that is not the loaded node"
+				continue
+			}
+			if isNil(rhs) {
+				continue
+			}
+			call, isCall := ast.Unparen(rhs).(*ast.CallExpr)
+			if !isCall {
+				ok, why = false, "assigned `"+engine.ExprString(rhs)+"`"
+				continue
+			}
+			if k, w := tgLoaderCall(fn, call, loader, rootRef); !k {
+				ok, why = false, w
+			}
+		}
+	})
+	if n == 0 {
+		return false, "variable is never assigned"
+	}
+	return ok, why
+}
+
+func tgLoaderCall(fn *engine.Fn, call *ast.CallExpr, loader, rootRef string) (bool, string) {
+	info := fn.Info()
+	s := fn.SiteOf(call)
+	if s == nil || s.CalleeName() != loader || len(call.Args) != 1 {
+		return false, "`" + engine.ExprString(call) + "` is not " + loader
+	}
+	// the key comes from the root reference of the version
+	if kc, ok := ast.Unparen(call.Args[0]).(*ast.CallExpr); ok {
+		if ks := fn.SiteOf(kc); ks != nil && ks.CalleeName() == rootRef {
+			return true, ""
+		}
+		return false, "key is not the version's root reference"
+	}
+	ko := engine.ObjOf(info, call.Args[0])
+	if ko == nil {
+		return false, "key is not a local variable"
+	}
+	n, ok := 0, true
+	engine.InspectBody(fn, func(nd ast.Node) {
+		as, isAs := nd.(*ast.AssignStmt)
+		if !isAs {
+			return
+		}
+		for i, l := range as.Lhs {
+			if engine.ObjOf(info, l) != ko {
+				continue
+			}
+			n++
+			var rhs ast.Expr
+			if len(as.Rhs) == len(as.Lhs) {
+				rhs = as.Rhs[i]
+			} else if len(as.Rhs) == 1 && i == 0 {
+				rhs = as.Rhs[0]
+			}
+			c2, isCall := rhs.(*ast.CallExpr)
+			if rhs == nil || !isCall {
+				ok = false
+				continue
+			}
+			if ks := fn.SiteOf(c2); ks == nil || ks.CalleeName() != rootRef {
+				ok = false
+			}
+		}
+	})
+	if n == 0 || !ok {
+		return false, "the loader key does not come (only) from " + rootRef
+	}
+	return true, ""
+}
